@@ -13,11 +13,13 @@ REPO = os.environ.get('VERIF_REPO') or os.environ.get('VP_RUN_REPO') or '/repo'
 LEAN = f'{VERIF}/lean'
 HARNESS = f'{VERIF}/harness'
 WORK = f'{VERIF}/work'
+# build output is kept per repository copy (cargo does not re-uplift artifacts when two copies alternate in one target dir)
+TSUF = '' if REPO == '/repo' else '-' + re.sub(r'[^A-Za-z0-9]', '_', REPO)
 DRV = f'{LEAN}/.lake/build/bin/drv'
-XCHECK = f'{WORK}/target/debug/xcheck'
+XCHECK = f'{WORK}/target{TSUF}/debug/xcheck'
 NPROC = min(16, os.cpu_count() or 4)
 ALLOWED_AXIOMS = {'propext', 'Classical.choice', 'Quot.sound'}
-ENV = dict(os.environ, CARGO_NET_OFFLINE='true', CARGO_TARGET_DIR=f'{WORK}/target')
+ENV = dict(os.environ, CARGO_NET_OFFLINE='true', CARGO_TARGET_DIR=f'{WORK}/target{TSUF}')
 
 
 def sh(cmd, cwd=None, timeout=None, check=False, env=None):
